@@ -6,9 +6,10 @@ import fds_check as fc
 import fds_gen as fg
 
 MLS = ("fds",)
-HARNESSES = ()
+HARNESSES = ("fds_h",)
 LEVEL = "proof-partial"
-THEOREMS = []
+THEOREMS = ["C15_conservation", "C15_closed_exactly_once", "C15_received_from_sent", "C15_order_and_count",
+            "C15_only_negotiated", "C15_full", "C15_fuel_suffices"]
 
 NONTRIVIAL = {"delivered-with-fds", "error-NotSupported", "error-AccessDenied", "error-NoDest", "sender-disconnected-by-bus",
               "descriptors-held", "pending-timeout-fired", "driver-reply"}
@@ -16,14 +17,15 @@ NONTRIVIAL = {"delivered-with-fds", "error-NotSupported", "error-AccessDenied", 
 
 def gen_cases(tier, rnd):
     cases = list(fg.scenarios()) + fc.load_corpus("C15")
-    n_plain, n_timed = (330, 12) if tier == "quick" else (20000, 300)
+    n_plain, n_timed = (330, 36) if tier == "quick" else (20000, 400)
     cfgs = fg.configs(tier)
     for i in range(n_plain):
         cfg = cfgs[i % len(cfgs)]
         cases.append(("gen%d" % i, cfg, fg.gen_history(rnd, cfg, rnd.randint(5, 14))))
     for i in range(n_timed):
         cfg = fg.TIMED_CFGS[i % len(fg.TIMED_CFGS)]
-        cases.append(("timed%d" % i, cfg, fg.gen_history(rnd, cfg, rnd.randint(4, 9))))
+        gen = fg.gen_timed_history if i % 3 else fg.gen_history
+        cases.append(("timed%d" % i, cfg, gen(rnd, cfg, rnd.randint(4, 9))))
     return cases
 
 
@@ -31,9 +33,11 @@ def run(ctx):
     rep, tier, info = ctx["rep"], ctx["tier"], ctx["info"]
     rnd = random.Random(ctx["seed"])
     model = info["model_fds"]
+    lib_replay = []
     if ctx.get("replay"):
         r = json.load(open(ctx["replay"]))["replay"]
-        cases = [(r.get("name") or "replay", tuple(r["cfg"]), list(r["events"]))]
+        one = [(r.get("name") or "replay", tuple(r["cfg"]), list(r["events"]))]
+        cases, lib_replay = ([], one) if r.get("leg") == "library" else (one, [])
     else:
         cases = gen_cases(tier, rnd)
     cases, removed = fc.clean(model, cases)
@@ -47,7 +51,7 @@ def run(ctx):
     mtoks, mcr = fc.run_model(model, cases)
     for line, err in mcr:
         rep.violation("extracted model failed on `%s`: %s" % (line[:300], err[-300:]), {"input": line, "names": "model driver"}, found_input=False)
-    impl, bad = fc.run_impl(info["daemon"], cases)
+    impl, bad = fc.run_impl(info["daemon"], cases) if cases else ([], [])
     for cfg, rc, err, hists in bad:
         rep.violation("dbus-daemon ended with status %s / sanitizer or assertion output while replaying %d histories: %s" % (rc, len(hists), err[-700:]),
                       {"cfg": list(cfg), "histories": [" ".join(h) for h in hists], "stderr": err[-4000:]})
@@ -103,27 +107,92 @@ def run(ctx):
             else:
                 rep.violation("model and implementation agree but break the specification at step %d: %s" % (j, text),
                               dict(replay, impl=it, model=mt, oracle=flags, step=j))
+    # ---- library side: a real libdbus client connection reading from a scripted peer (harness/c/fds_h.c)
+    lib_n = 0 if ctx.get("replay") else (3000 if tier == "quick" else 60000)
+    lrnd = random.Random(ctx["seed"] * 7919 + 1)
+    lcases = list(lib_replay)
+    for i in range(lib_n):
+        cfg = (lrnd.choice([1, 2, 3, 4, 16]), fg.UNTIMED, -1, fg.CAP)
+        lcases.append(("lib%d" % i, cfg, fg.gen_lib_history(lrnd, cfg, lrnd.randint(3, 10))))
+    lcases, lremoved = fc.clean(model, lcases)
+    lmt, lmcr = fc.run_model(model, lcases)
+    lres, lcrashes = vlib.run_lines(info["fds_h"], [fc.lib_line(cfg, ev) for _, cfg, ev in lcases]) if lcases else ([], [])
+    for line, err in lcrashes:
+        rep.violation("libdbus (harness fds_h) crashed or reported a sanitizer error: %s" % err[-600:], {"input": line[:4000], "stderr": err[-3000:], "leg": "library"})
+    lib_dis, lib_dist, lib_nontrivial = 0, {}, set()
+    for (name, cfg, ev), mt0, r in zip(lcases, lmt, lres):
+        if r == "!CRASH":
+            continue
+        mt, it = fc.lib_canon_model(ev, mt0), r.split()
+        for t in mt:
+            k = "disconnected" if "/x/" in t else ("held" if t.count("/") == 2 and t.split("/")[2] != "0" else ("with-fds" if "M." in t and ".-" not in t else None))
+            if k:
+                lib_dist[k] = lib_dist.get(k, 0) + 1
+                lib_nontrivial.add((tuple(cfg), tuple(ev)))
+        flags = fc.lib_oracle(cfg, ev, it)
+        replay = {"cfg": list(cfg), "events": ev, "name": name, "leg": "library", "line": fc.lib_line(cfg, ev)[:6000],
+                  "how": "echo '<line>' | build/fds_h   (model: echo 'hist %s %s' | build/ml/fds/model)" % (fc.cfg_str(cfg), " ".join(ev))}
+        if mt != it:
+            lib_dis += 1
+            k = next(j for j in range(max(len(mt), len(it))) if j >= len(it) or j >= len(mt) or mt[j] != it[j])
+            if flags:
+                rep.violation("library, step %d: %s (libdbus `%s`, model `%s`)" % (flags[0][0], flags[0][1], it[k] if k < len(it) else "?", mt[k] if k < len(mt) else "?"),
+                              dict(replay, impl=it, model=mt, oracle=flags))
+            else:
+                rep.violation("libdbus and model differ at step %d: libdbus `%s`, model `%s`; the C15 oracle accepts libdbus's behaviour" % (
+                    k, it[k] if k < len(it) else "?", mt[k] if k < len(mt) else "?"),
+                    dict(replay, impl=it, model=mt, names="correspondence harness/c/fds_h.c (libdbus client connection) vs Fds.step (extracted)"), found_input=False)
+        elif flags:
+            rep.violation("library: model and libdbus agree but break the specification at step %d: %s" % flags[0], dict(replay, impl=it, model=mt, oracle=flags))
+    # ---- exploration outside the model: a recipient that never reads (outgoing queue holds descriptors)
+    import fds_impl
+    blocked = []
+    if not ctx.get("replay"):
+        for nf, mi in ((3, 6), (1, 2), (8, 8)):
+            try:
+                r = fds_impl.run_blocked(info["daemon"], nf, mi)
+            except Exception as e:
+                rep.violation("harness could not run the blocked-recipient exploration: %r" % (e,), {"names": "harness/py/fds_impl.py run_blocked"}, found_input=False)
+                continue
+            blocked.append(dict(r, nfds=nf, max_incoming=mi, stderr=""))
+            how = {"scenario": "blocked-recipient", "nfds_per_message": nf, "max_incoming_unix_fds": mi, "observed": {k: v for k, v in r.items() if k != "stderr"},
+                   "how": "python3 -c 'import sys; sys.path.insert(0,\"harness/py\"); import fds_impl; print(fds_impl.run_blocked(\"build/dbus/bin/dbus-daemon\", %d, %d))'" % (nf, mi)}
+            if r["rc"] != 0 or "Sanitizer" in r["stderr"] or "assertion failed" in r["stderr"].lower():
+                rep.violation("dbus-daemon ended with status %s / sanitizer output in the blocked-recipient exploration: %s" % (r["rc"], r["stderr"][-500:]), how)
+            elif r["after_sender_left"] != 0 or r["after_recipient_left"] not in (1, 1 + nf):
+                # the sender's last write may have been cut short by the full socket: then one message is half-received and
+                # its descriptors are pending in the sender's loader, which is within the limit
+                rep.violation("descriptors queued for a recipient that never read were not all closed: %d above baseline after the recipient left "
+                              "(expected 1: the sender's socket, or 1+%d with a half-written last message), %d after the sender left (expected 0)"
+                              % (r["after_recipient_left"], nf, r["after_sender_left"]), how)
+            elif r["blocked"] > 2 + mi + nf:
+                rep.violation("the bus held %d descriptors for a blocked recipient, more than max_incoming_unix_fds (%d) plus one message allows" % (r["blocked"] - 2, mi), how)
     rep.coverage.update({
-        "evaluations": len(cases), "distinct_nontrivial": len(nontrivial),
+        "evaluations": len(cases) + len(lcases), "distinct_nontrivial": len(nontrivial) + len(lib_nontrivial),
+        "daemon_histories": len(cases), "library_histories": len(lcases), "library_disagreements": lib_dis, "library_distribution": lib_dist, "blocked_recipient_exploration": blocked,
         "rule": "histories over 2-5 raw clients (with / without NEGOTIATE_UNIX_FD, with / without a match rule for the test broadcast): whole messages, "
                 "two messages in one write, messages split into 2-3 writes at offsets {1,8,15,16,17,20,len/2,len-8,len-1,random} with the descriptors "
                 "on the first, the last or spread over the pieces, messages longer than one read (2048), UNIX_FDS announced in {0,1,2,max-1,max,max+1,"
-                "policy count limit-1/limit}, attached = announced (55%%) or announced+-1, +2, 0, max, max+1, destinations: negotiated / "
+                "policy count limit-1/limit}, attached = announced (62%%), a surplus of 1-2 or up to the maximum (24%%), or fewer / 0 / max+1 (14%%), destinations: negotiated / "
                 "non-negotiated / own / dead / never-existing connection, missing name, bus driver, broadcast; policy denial by interface and by "
-                "descriptor count; messages invalid in the fixed header (version, byte order, over max_message_size) or only once complete; "
+                "descriptor count; messages invalid in the fixed header (byte order, lengths over max_message_size) or only once complete (missing required field, bad UTF-8, protocol version); "
                 "disconnects of senders and recipients between the pieces; max_message_unix_fds in {1,2,3,4,16}; pending_fd_timeout %d ms with "
-                "ticks of %d/%d ms in the timed group; plus %d hand-written boundary scenarios.  Events the model calls ill-formed (writes on "
+                "ticks of %d/%d ms in the timed group (every sum of ticks is at least 200 ms away from the timeout); plus %d hand-written boundary scenarios.  Events the model calls ill-formed (writes on "
                 "connections the bus has closed) are removed before the run (%d removed).  non-trivial = the model predicts at least one of %s; "
-                "distinct = distinct (configuration, event list)" % (fg.TIMEOUT, fg.TICK_SHORT, fg.TICK_LONG, len(fg.scenarios()), removed, sorted(NONTRIVIAL)),
-        "samples": samples, "input_distribution": dist, "traces_validated_against_impl": validated, "steps_compared": steps,
+                "distinct = distinct (configuration, event list).  LIBRARY LEG: %d histories of one libdbus client connection (max_message_unix_fds in {1,2,3,4,16}, negotiated 85%%) reading the same kinds of writes from a scripted raw peer; "
+                "observed: messages popped with the identity of their descriptors, dbus_connection_get_is_connected, the pending count, /proc/self/fd "
+                "against the pending count after every step and against the baseline after the last unref (%d ill-formed events removed)"
+                % (fg.TIMEOUT, fg.TICK_MID, fg.TICK_LONG, len(fg.scenarios()), removed, sorted(NONTRIVIAL), len(lcases), lremoved),
+        "samples": samples, "input_distribution": dist, "traces_validated_against_impl": validated + len([r for r in lres if r != "!CRASH"]), "steps_compared": steps,
         "disagreements_checked": disagreements, "timing_unusable": tainted, "oracle_flagged_histories": oracle_flags, "exhaustive": False,
         "explanation": "PROVED (Coq, all histories, about the model coq/Fds/Fds.v): see property_theorems.  EXPLORED ONLY (not provable about C code "
                        "from a model): that the real daemon calls close() exactly once per descriptor on every path and that its descriptor table is "
                        "back at the baseline; this is observed out of process on every generated history through /proc/<pid>/fd after ordering "
                        "barriers (per step: entries - baseline - live clients = descriptors the model says are held; after teardown: 0), together "
                        "with identity (same open file description: st_dev, st_ino, file offset), order and count of the descriptors every raw client "
-                       "received, the error replies, and which clients the daemon disconnected; the property oracle (harness/py/fds_check.py oracle) "
-                       "is evaluated on the daemon's observed behaviour for every history",
+                       "received, the error replies, and which clients the daemon disconnected; the same for the library (a libdbus client connection "
+                       "in the harness process, /proc/self/fd); the property oracle (harness/py/fds_check.py oracle / lib_oracle) "
+                       "is evaluated on the observed behaviour for every history",
     })
     rep.assumptions = [
         "model coq/Fds/Fds.v is hand-written after dbus-transport-socket.c do_reading, dbus-sysdeps-unix.c _dbus_read_socket_with_unix_fds, "
@@ -134,6 +203,7 @@ def run(ctx):
         "every write is fully processed by the bus before the next one is issued (control-connection round trips); concurrent writers, blocked recipients "
         "(descriptors queued in an outgoing queue), max_incoming_unix_fds / max_outgoing_unix_fds back-pressure, monitors, activation and out-of-memory "
         "paths are outside the model",
-        "time: non-tick steps are assumed to take no time; histories with ticks whose non-tick steps took more than a quarter of pending_fd_timeout are re-run, then skipped",
-        "the library side (a libdbus client receiving descriptors) runs the same loader/transport code as the daemon; it is exercised only through the daemon",
+        "time: non-tick steps are assumed to take no time; histories with ticks whose non-tick steps took more than a fifth of pending_fd_timeout are re-run, then skipped",
+        "library leg: the application is assumed to pop and release every message at once and to drop a connection as soon as it is disconnected "
+        "(descriptors an application keeps by holding message references or by dup() through dbus_message_iter_get_basic are the application's)",
     ]
